@@ -252,7 +252,9 @@ func (listForSender *txListForSender) selectBatchTo(isFirstBatch bool, destinati
 		value := element.Value.(*WrappedTransaction)
 		txNonce := value.Tx.GetNonce()
 
-		if previousNonce > 0 && txNonce > previousNonce+1 {
+		// previousNonce is meaningful for all but the first transaction of the list (which might have the nonce 0)
+		isFirstTx := element == listForSender.items.Front()
+		if !isFirstTx && txNonce > previousNonce+1 {
 			listForSender.copyDetectedGap = true
 			journal.hasMiddleGap = true
 			break
